@@ -91,6 +91,15 @@ Definition point_ok_expr (d : nat) (e o : expr) (p : list (string * Q)) : bool :
   | _, _ => true
   end.
 
+(* the second oracle when the output is a structural rounding of a hint: the hint has exactly the value of the input at
+   the points (the rounding itself is syntactic) *)
+Definition exact_point (e h : expr) (p : list (string * Q)) : bool :=
+  let rho := lookup (canon_point p) in
+  match eval_opt rho e, eval_opt rho h with
+  | Some x, Some y => Qeq_bool x y
+  | _, _ => true
+  end.
+
 (* ------------------------------------------------------------------ end-to-end judgement *)
 Record e2e_view := { ev_parsed : bool; ev_check : bool; ev_points : bool; ev_reader : bool }.
 
@@ -103,8 +112,12 @@ Definition view_e2e (entry : string) (d : nat) (conds assum : list string) (out 
     match map rd_expr conds, out with
     | [Some e], Returned [o] =>
         match rd_expr o with
-        | Some oe => {| ev_parsed := true; ev_check := check_expr d (somes (map rd_hexpr hints)) e oe;
-                        ev_points := forallb (point_ok_expr d e oe) points; ev_reader := reader_ok |}
+        | Some oe => let hs := somes (map rd_hexpr hints) in
+                     {| ev_parsed := true; ev_check := check_expr d hs e oe;
+                        ev_points := if forallb (point_ok_expr d e oe) points then true
+                                     else existsb (fun h => if eround_b (tol_of d) h oe
+                                                            then forallb (exact_point e h) points else false) hs;
+                        ev_reader := reader_ok |}
         | None => bad_view reader_ok
         end
     | _, _ => bad_view reader_ok
